@@ -187,7 +187,7 @@ def run(ctx):
                     continue
                 o = json.loads(l)
                 res = o.get("outcome", "")
-                c = res.split(" (")[0] if res.startswith("panic:") else ("timeout" if res == "timeout" else "state-changed-on-error")
+                c = res.split(" (")[0] if res.startswith("panic:") else ("timeout" if res == "timeout" else ("invariant-broken" if res.startswith("INVARIANT-BROKEN") else "state-changed-on-error"))
                 sig = f"C19:{o['op']}:{c}"
                 violate(sig, f"exploration (not modelled): {o['op'][2:]} ends in `{res[:160]}`", l)
 
